@@ -63,6 +63,9 @@ impl Stream for LeafS {
             LeafOut::End => Poll::Ready(None),
         }
     }
+    fn size_hint(&self) -> (usize, Option<usize>) {
+        world::leaf_size_hint(self.0 .0)
+    }
 }
 
 struct PollGuard {
@@ -95,16 +98,19 @@ pub struct ProbeS {
 // of following a dangling Box.
 impl Drop for ProbeF {
     fn drop(&mut self) {
+        world::node_drop_begin(self.mark.0);
         self.inner = None;
     }
 }
 impl Drop for ProbeR {
     fn drop(&mut self) {
+        world::node_drop_begin(self.mark.0);
         self.inner = None;
     }
 }
 impl Drop for ProbeS {
     fn drop(&mut self) {
+        world::node_drop_begin(self.mark.0);
         self.inner = None;
     }
 }
